@@ -23,6 +23,11 @@ IMG = os.path.join(KEYS, "img")
 
 TARGET_CFG = {"xip": "xip", "load_to_ram": "load-to-ram"}
 AUTH_CFG = {"plain": "plain", "crc": "crc", "signed": "signed", "nxp_signed": "signed-nxp", "encrypted": "signed-encrypted"}
+# every spelling the configuration schema (sch_mbi.yaml, image_type) documents for the two keys
+TARGET_ALIASES = {"xip": ["xip", "Internal flash (XIP)", "External flash (XIP)", "Internal Flash (XIP)", "External Flash (XIP)"],
+                  "load_to_ram": ["load-to-ram", "RAM", "ram"]}
+AUTH_ALIASES = {"plain": ["plain", "Plain"], "crc": ["crc", "CRC"], "signed": ["signed", "Signed"],
+                "nxp_signed": ["signed-nxp", "NXP Signed", "NXP signed", "nxp_signed"], "encrypted": ["signed-encrypted", "Encrypted + Signed", "encrypted"]}
 IMAGE_TYPES = {
     "PLAIN_IMAGE": 0,
     "SIGNED_RAM_IMAGE": 1,
@@ -170,6 +175,38 @@ def tz_len(family, revision="latest"):
     return _TZ_LEN[key]
 
 
+_TZ_SPEC = {}
+
+
+def tz_spec(family, revision="latest"):
+    """[(register name, preset value)] of the family's TrustZone block in file order, read directly from the database file."""
+    key = (family, revision)
+    if key not in _TZ_SPEC:
+        import yaml
+
+        from spsdk.utils.database import DatabaseManager, get_db
+
+        path = get_db(family, revision).get_file_path(DatabaseManager.TZ, "reg_spec")
+        with open(path) as f:
+            data = json.load(f) if path.endswith(".json") else yaml.safe_load(f)
+        _TZ_SPEC[key] = [(n, int(v, 0) if isinstance(v, str) else int(v)) for n, v in data.items()]
+    return _TZ_SPEC[key]
+
+
+def tz_customs(m, r):
+    """A partial customisation (about half of the registers) and the block it must produce: presets overridden, file order, 32-bit LE."""
+    spec = tz_spec(m["resolved"], m["revision"])
+    customs, words = {}, []
+    for name, preset in spec:
+        if r.random() < 0.5:
+            val = r.getrandbits(32)
+            customs[name] = r.choice([hex(val), f"0x{val:08X}", val])
+            words.append(val)
+        else:
+            words.append(preset)
+    return customs, struct.pack(f"<{len(words)}I", *words)
+
+
 def mtz_len(m):
     return tz_len(m["resolved"], m["revision"])
 
@@ -224,9 +261,10 @@ def compositions(mem=None):
 # ------------------------------------------------------------------ option sets
 class Opts(dict):
     """Concrete option set. Keys (all optional except app):
-    app bytes; load int; tz 'disabled'|'enabled'|'custom'; tz_data bytes; hwkey bool; ks bytes|None; relocs [(bytes, dst)];
+    app bytes; load int; tz 'disabled'|'enabled'|'custom'; tz_data bytes (the block; given to the builder as binary preset file unless
+    tz_customs {register: value} is set - then the builder gets the YAML/dict form and tz_data is what must come out); hwkey bool; ks bytes|None; relocs [(bytes, dst)];
     cert kind name; certdir (shared directory of the certificate block configurations); img_ver int; sub int; fw_ver int; digest None|'sha256'|'sha384'|'sha512'|'add'; hmac_key hex str; iv bytes|None;
-    lifecycle str; add_hash bool"""
+    lifecycle str; add_hash bool; variant int (selects the documented spelling of target / authentication names and of numbers in the configuration)"""
 
     def __getattr__(self, n):
         return self.get(n)
@@ -282,18 +320,22 @@ def make_config(m, o, workdir):
     cfg = {
         "family": m["family"],
         "revision": m.get("revision", "latest"),
-        "outputImageExecutionTarget": TARGET_CFG[m["target"]],
-        "outputImageAuthenticationType": AUTH_CFG[m["auth"]],
+        "outputImageExecutionTarget": TARGET_ALIASES[m["target"]][(o.variant or 0) % len(TARGET_ALIASES[m["target"]])],
+        "outputImageAuthenticationType": AUTH_ALIASES[m["auth"]][(o.variant or 0) % len(AUTH_ALIASES[m["auth"]])],
         "masterBootOutputFile": os.path.join(workdir, "mbi.bin"),
         "inputImageFile": _w(os.path.join(workdir, "app.bin"), o["app"]),
     }
+    num = (lambda n: n) if (o.variant or 0) % 3 == 1 else (lambda n: hex(n)) if (o.variant or 0) % 3 == 0 else (lambda n: str(n))  # number spellings
     if has(m, "LoadAddress") or (has(m, "LoadAddressOptional") and o.load is not None):
-        cfg["outputImageExecutionAddress"] = hex(o.load or 0)
+        cfg["outputImageExecutionAddress"] = num(o.load or 0)
     if has(m, "TrustZone") or has(m, "TrustZoneMandatory") or has(m, "ManifestCrc") or has(m, "ManifestDigest"):
         tz = o.tz or "enabled"
         if has(m, "TrustZone"):
             cfg["enableTrustZone"] = tz != "disabled"
-        if tz == "custom":
+        if tz == "custom" and o.tz_customs is not None:
+            cfg["trustZonePresetFile"] = _w(os.path.join(workdir, "tz.json"), json.dumps(
+                {"family": m["family"], "revision": m.get("revision", "latest"), "tzpOutputFile": "tz.bin", "trustZonePreset": o["tz_customs"]}, indent=1))
+        elif tz == "custom":
             cfg["trustZonePresetFile"] = _w(os.path.join(workdir, "tz.bin"), o["tz_data"])
     if has(m, "HwKey"):
         cfg["enableHwUserModeKeys"] = bool(o.hwkey)
@@ -307,9 +349,9 @@ def make_config(m, o, workdir):
         cfg["certBlock"] = cert_cfg_file(o["cert"], o.certdir or workdir)
         cfg["signPrivateKey"] = sign_key(o["cert"])
     if has(m, "ImageVersion"):
-        cfg["imageVersion"] = o.img_ver or 0
+        cfg["imageVersion"] = num(o.img_ver or 0)
     if has(m, "FwVersion") or has(m, "ManifestCrc") or has(m, "ManifestDigest") or has(m, "BcaObsolete"):
-        cfg["firmwareVersion"] = o.fw_ver or 0
+        cfg["firmwareVersion"] = num(o.fw_ver or 0)
     if has(m, "ImageSubType"):
         cfg["outputImageSubtype"] = "main" if not o.sub else ("nbu" if o.get("sub_label") != "recovery" else "recovery")
     if has(m, "ManifestDigest") and o.digest:
@@ -343,6 +385,8 @@ def trust_zone_obj(m, o):
     tz = o.tz or "enabled"
     if tz == "disabled":
         return TrustZone.disabled()
+    if tz == "custom" and o.tz_customs is not None:
+        return TrustZone.custom(family=m["family"], customizations=dict(o["tz_customs"]), revision=m.get("revision", "latest"))
     if tz == "custom":
         return TrustZone.from_binary(family=m["family"], raw_data=o["tz_data"], revision=m.get("revision", "latest"))
     return TrustZone.enabled()
